@@ -154,7 +154,7 @@ class get_arg_ctx(_CtxSpec):
         self.loops[0] = LoopSpec(invariant=self.inv, seqvars={"args_hashes": TSeq(ENTRY)})
 
     def make_args(self, eng):
-        return {"f": Opaque("f"), "args": TSeq(TPV).const("args"), "kwargs": MapVal.named("kwargs", TStr, TPV)}
+        return {"f": Opaque("f"), "args": TSeq(TPV).const("args"), "kwargs": MapVal.named("kwargs", TStr, TPV, with_card=True)}
 
     def requires(self, ctx):
         i = z3.Int(sv.fresh_name("i"))
@@ -239,7 +239,7 @@ class get_arg_ctx_ast(_CtxSpec):
         self.loops[0] = LoopSpec(invariant=self.inv, seqvars={"args_hashes": TSeq(ENTRY)})
 
     def make_args(self, eng):
-        return {"f": Opaque("f"), "args": TSeq(NODE).const("args"), "kwargs": MapVal.named("kwargs", TStr, NODE)}
+        return {"f": Opaque("f"), "args": TSeq(NODE).const("args"), "kwargs": MapVal.named("kwargs", TStr, NODE, with_card=True)}
 
     def requires(self, ctx):
         i = z3.Int(sv.fresh_name("i"))
